@@ -1,4 +1,77 @@
 package main
 
+import (
+	"go/ast"
+	"strings"
+)
+
+// c01TrackCalls: every tracker call (c.tracker.X / t.X on the tracker) inside a converter method, source
+// order, as "callee(arg,arg,...)" with the arguments rendered by exprString (composite literals as "?").
+func c01TrackCalls(rel, recv, name string) []string {
+	var res []string
+	ast.Inspect(methodDecl(rel, recv, name).Body, func(n ast.Node) bool {
+		c, ok := n.(*ast.CallExpr)
+		if !ok {
+			return true
+		}
+		callee := calleeName(c.Fun)
+		if !strings.HasPrefix(callee, "c.tracker.") {
+			return true
+		}
+		args := make([]string, len(c.Args))
+		for i, a := range c.Args {
+			args[i] = exprString(a)
+		}
+		res = append(res, strings.TrimPrefix(callee, "c.tracker.")+"("+strings.Join(args, ",")+")")
+		return true
+	})
+	return res
+}
+
 func factsC01() {
+	// ---- C01: the tracking calls of the ingress converter the model mirrors, and the tracker recursion
+	ing := "pkg/converters/ingress/ingress.go"
+	for _, m := range []struct{ fn, name, doc string }{
+		{"syncPartial", "c01TrackSyncPartial", "ingress.go syncPartial: tracker calls"},
+		{"trackAddedIngress", "c01TrackAdded", "ingress.go trackAddedIngress: tracker calls (pre-tracking of added/updated ingresses)"},
+		{"addHost", "c01TrackAddHost", "ingress.go addHost: tracker calls"},
+		{"addBackendWithClass", "c01TrackAddBackend", "ingress.go addBackendWithClass: tracker calls (service/endpoints -> host first, then ingress -> backend)"},
+		{"addDefaultHostBackend", "c01TrackDefaultBackend", "ingress.go addDefaultHostBackend: tracker calls (loser tracks the host; error tracks the service)"},
+		{"trackSkippedService", "c01TrackSkipped", "ingress.go trackSkippedService: tracker calls (ingress -> service always, ingress -> backend when resolved)"},
+		{"readIngressClass", "c01TrackClass", "ingress.go readIngressClass: tracker calls"},
+		{"addTCPService", "c01TrackTCP", "ingress.go addTCPService: tracker calls"},
+	} {
+		addStrList(m.name, c01TrackCalls(ing, "converter", m.fn), m.doc)
+	}
+	// callers of the skipped-declaration tracking
+	var skipCallers []string
+	for _, fn := range []string{"syncIngressHTTP", "syncIngressTCP", "addDefaultHostBackend"} {
+		for _, c := range methodCalls(ing, "converter", fn) {
+			if c == "c.trackSkippedBackend" || c == "c.trackSkippedService" {
+				skipCallers = append(skipCallers, fn+":"+c)
+			}
+		}
+	}
+	addStrList("c01SkippedCallers", skipCallers, "call sites of trackSkippedBackend / trackSkippedService")
+	// converters.Sync: a full sync clears the tracker and the haproxy model
+	addStrList("c01SyncCalls", func() []string {
+		var res []string
+		for _, c := range methodCalls("pkg/converters/converters.go", "converters", "Sync") {
+			if c == "c.options.Tracker.ClearLinks" || c == "c.haproxy.Clear" || c == "ingressConverter.Sync" || c == "ingressConverter.NeedFullSync" {
+				res = append(res, c)
+			}
+		}
+		return res
+	}(), "converters.go Sync: NeedFullSync, ClearLinks + haproxy.Clear, then the ingress converter")
+	// tracker.go: the recursion of removeRef and of QueryLinks' updateOutput
+	tr := "pkg/converters/tracker/tracker.go"
+	addStrList("c01RemoveRefCalls", methodCalls(tr, "tracker", "removeRef"), "tracker.go removeRef: selector calls (the recursive call)")
+	var q []string
+	for _, c := range methodCalls(tr, "tracker", "QueryLinks") {
+		if c == "t.removeRef" || c == "sort.Strings" {
+			q = append(q, c)
+		}
+	}
+	addStrList("c01QueryLinksCalls", q, "tracker.go QueryLinks: removeRef on every output id, sorted output")
+	addStrList("c01TrackRefsCalls", methodCalls(tr, "tracker", "TrackRefs"), "tracker.go TrackRefs: both directions are stored")
 }
